@@ -22,7 +22,8 @@ package main
 // about to influence, declares the run ambiguous and repeats the case with a larger scale. So no
 // assumption is made about how fast the machine is.
 //
-// Header: svc=0|1 peer=0|1 wiring=ttl|facade idle= ttlro= ttlrw= bt= kind=prog|race
+// Header: svc=0|1 peer=0|1 wiring=ttl|facade idle= ttlro= ttlrw= kind=prog|race   (the limit of
+//         RegistryImpl.Begin is not configurable: the model takes it from gen/TxFacts.v)
 // Lines:  begin C rw|ro D | get C K | put C K V | del C K | commit C | rollback C     (by handle)
 //         oget C K | oput C K V | odel C K | ocommit C | orollback C   (on the kept object, svc=0)
 //         remove C | abandon C | sleep N | stale | cleanconn C | shutdown | failnext | probe | dump
